@@ -419,6 +419,15 @@ class SimFS:
         self.plan = dict(plan or {})
         self.fired = []
         self.crashed = False
+        self.in_op = True
+
+    def end_op(self) -> None:
+        """Between operations nothing is numbered and no fault fires: a leaked file object that
+        the garbage collector finalises later (its flush and close reach the raw file) must not
+        meet a planned or persistent fault outside the operation it was planned for."""
+        self.in_op = False
+        self.plan = {}
+        self.crashed = False  # (the files open at the crash stay abandoned)
 
     def _seam(self, kind: str, path):
         """Number this call; fire a planned fault if one is due and applicable.
@@ -428,6 +437,8 @@ class SimFS:
             # the process is gone: whatever handlers and `finally` blocks attempt while the crash
             # unwinds never reaches the disk (a real kill runs none of them)
             raise SimCrash(self.crash_power, "after-crash")
+        if not getattr(self, "in_op", True):
+            return None
         self.call_no += 1
         n = self.call_no
         self.trace.append((n, kind, path if isinstance(path, str) else None))
